@@ -239,3 +239,47 @@ func (p *Prog) ReachesIn(F *ssa.Function, a, b ssa.Instruction) bool {
 	}
 	return false
 }
+
+// IsPrivateHelper: fn is a declared, unexported function whose address is
+// never taken and which is only reached by plain static calls (at least one):
+// its statements execute as part of its callers.
+func (p *Prog) IsPrivateHelper(fn *ssa.Function) bool {
+	if fn.Parent() != nil || len(fn.Blocks) == 0 || p.AddrTaken(fn) {
+		return false
+	}
+	if fn.Object() != nil && fn.Object().Exported() {
+		return false
+	}
+	cs := p.CallersOf(fn)
+	if len(cs) == 0 {
+		return false
+	}
+	for _, c := range cs {
+		switch c.(type) {
+		case *ssa.Go, *ssa.Defer:
+			return false
+		}
+	}
+	return true
+}
+
+// Helpers returns F followed by the private helpers it (transitively) calls
+// directly (not from its closures), restricted to F's package.
+func (p *Prog) Helpers(F *ssa.Function) []*ssa.Function {
+	out := []*ssa.Function{F}
+	seen := map[*ssa.Function]bool{F: true}
+	for i := 0; i < len(out); i++ {
+		for _, c := range Calls(out[i]) {
+			cal := c.Common().StaticCallee()
+			if cal == nil || seen[cal] || cal.Pkg != F.Pkg || !p.IsPrivateHelper(cal) {
+				continue
+			}
+			if _, isCall := c.(*ssa.Call); !isCall {
+				continue
+			}
+			seen[cal] = true
+			out = append(out, cal)
+		}
+	}
+	return out
+}
